@@ -263,6 +263,31 @@ where
             return Err(PlanningError::InvalidStartState);
         }
 
+        // The root of the goal tree is a sampled goal state: it must be valid as well. If the one
+        // drawn in setup() is not, draw again (a bounded number of times) before giving up.
+        if !vc.is_valid(&self.goal_tree[0].state) {
+            const MAX_GOAL_ROOT_ATTEMPTS: usize = 100;
+            let mut valid_root = None;
+            for _ in 0..MAX_GOAL_ROOT_ATTEMPTS {
+                if let Ok(candidate) = goal.sample_goal(&mut rng) {
+                    if vc.is_valid(&candidate) {
+                        valid_root = Some(candidate);
+                        break;
+                    }
+                }
+            }
+            match valid_root {
+                Some(state) => {
+                    self.goal_tree.clear();
+                    self.goal_tree.push(Node {
+                        state,
+                        parent_index: None,
+                    });
+                }
+                None => return Err(PlanningError::NoSolutionFound),
+            }
+        }
+
         // Main loop
         loop {
             // 1. Check for timeout
